@@ -266,16 +266,18 @@ theorem state_of_matches {t : Table} {e : Nat × StateKey} (h : stateMatches t e
 def Table.modArms (t : Table) (s : Nat) (f : List Arm → List Arm) : Table :=
   { t with states := t.states.modify s (fun sd => { sd with arms := f sd.arms }) }
 
-/-- arms `i` and `j` change places -/
-def swapArms (i j : Nat) (l : List Arm) : List Arm :=
-  match l[i]?, l[j]? with
-  | some a, some b => (l.set i b).set j a
+def idxOfPat (p : Pat) (l : List Arm) : Nat := (l.takeWhile fun a => a.pat != p).length
+
+/-- the arms with patterns `p` and `q` change places (found by pattern: independent of the order they are written in) -/
+def swapArms (p q : Pat) (l : List Arm) : List Arm :=
+  match l[idxOfPat p l]?, l[idxOfPat q l]? with
+  | some a, some b => (l.set (idxOfPat p l) b).set (idxOfPat q l) a
   | _, _ => l
 
-/-- arms `i` and `j` keep their patterns and exchange their bodies -/
-def swapBodies (i j : Nat) (l : List Arm) : List Arm :=
-  match l[i]?, l[j]? with
-  | some a, some b => (l.set i { a with body := b.body }).set j { b with body := a.body }
+/-- the arms with patterns `p` and `q` keep their patterns and exchange their bodies -/
+def swapBodies (p q : Pat) (l : List Arm) : List Arm :=
+  match l[idxOfPat p l]?, l[idxOfPat q l]? with
+  | some a, some b => (l.set (idxOfPat p l) { a with body := b.body }).set (idxOfPat q l) { b with body := a.body }
   | _, _ => l
 
 end LolHtml.Model
